@@ -463,7 +463,7 @@ func setString(m map[string]bool) string {
 
 // dryThenRealSameProject performs, on ONE Project value (as watch mode and library users do):
 // a dry run of target, Reload, and then Run(target, nil). It returns the result of the last run.
-func dryThenRealSameProject(root string, v Vars, target string) *buildResult {
+func dryThenRealSameProject(root string, v Vars, target string, reload bool) *buildResult {
 	res := &buildResult{Executed: map[string]bool{}}
 	rec := newRecorder()
 	be := &bodyEnv{root: root, fail: map[string]bool{}}
@@ -479,9 +479,11 @@ func dryThenRealSameProject(root string, v Vars, target string) *buildResult {
 	}
 	l, _ := label.Parse(target)
 	proj.Run(l, &dawn.RunOptions{DryRun: true})
-	if err := proj.Reload(); err != nil {
-		res.LoadErr = err
-		return res
+	if reload {
+		if err := proj.Reload(); err != nil {
+			res.LoadErr = err
+			return res
+		}
 	}
 	rec.mu.Lock()
 	rec.ev = nil
